@@ -250,6 +250,8 @@ pub struct KnownFinding {
     pub sub: String,
     pub tape: String,
     pub commit: Option<String>,
+    /// replay with generator exclusions disabled (default) or exactly as generated (`"strict": false` in repro)
+    pub strict: bool,
 }
 
 pub fn load_known(property: &str) -> Vec<KnownFinding> {
@@ -273,6 +275,7 @@ pub fn load_known(property: &str) -> Vec<KnownFinding> {
             sub: e["repro"]["sub"].as_str().unwrap_or("").to_string(),
             tape: e["repro"]["tape"].as_str().unwrap_or("").to_string(),
             commit: e["commit"].as_str().map(|s| s.to_string()),
+            strict: e["repro"]["strict"].as_bool().unwrap_or(true),
         });
     }
     out
@@ -339,6 +342,8 @@ struct Failure {
     tape: Vec<u8>,
     fail: Fail,
     desc: Value,
+    /// whether the case ran with generator exclusions disabled
+    strict: bool,
 }
 
 // ---- per-case watchdog: a case that runs longer than the limit ends the process with exit 2 (inconclusive) and
@@ -377,7 +382,153 @@ fn start_watchdog(property: &'static str) {
     });
 }
 
+/// crash containment: with VERIF_CASE_LOG=<prefix> every case writes (sub, tape) to <prefix>.<thread> before it runs, so a
+/// parent process can tell which case killed the worker (abort, stack overflow, allocation failure)
+fn case_log(sub: &str, tape: &[u8]) {
+    thread_local! {
+        static LOG_PATH: Option<String> = std::env::var("VERIF_CASE_LOG").ok().map(|p| format!("{}.{}", p, WATCH_ID.with(|i| *i)));
+    }
+    LOG_PATH.with(|p| {
+        if let Some(p) = p {
+            let _ = std::fs::write(p, format!("{}\n{}\n", sub, hex(tape)));
+        }
+    });
+}
+
+// ---- process isolation: cases run in worker subprocesses (one per calling thread); a worker that dies or hangs turns
+// into a failure of exactly the case it was running, which proptest can then shrink like any other failure
+static ISOLATE: AtomicBool = AtomicBool::new(false);
+static RETIRE: AtomicBool = AtomicBool::new(false);
+/// called by an oracle running inside a worker that had to abandon a runaway thread: the worker replies and exits, the parent
+/// starts a fresh worker for the next case
+pub fn request_worker_retire() {
+    RETIRE.store(true, Ordering::Relaxed);
+}
+struct Worker {
+    child: std::process::Child,
+    stdin: std::process::ChildStdin,
+    rx: std::sync::mpsc::Receiver<String>,
+    errfile: String,
+}
+thread_local! {
+    static WORKER: RefCell<Option<Worker>> = const { RefCell::new(None) };
+}
+fn spawn_worker(tier: Tier) -> Worker {
+    use std::io::BufRead;
+    let exe = std::env::current_exe().expect("current_exe");
+    let dir = format!("{}/out", verif_root());
+    let _ = std::fs::create_dir_all(&dir);
+    let errfile = format!("{}/worker-stderr-{}-{}.log", dir, std::process::id(), WATCH_ID.with(|i| *i));
+    let ef = std::fs::File::create(&errfile).expect("stderr file");
+    let mut child = std::process::Command::new(exe)
+        .args(["--worker", "--tier", tier.name()])
+        .env("VERIF_WORKER", "1")
+        .env("RUST_BACKTRACE", "0")
+        .stdin(std::process::Stdio::piped())
+        .stdout(std::process::Stdio::piped())
+        .stderr(ef)
+        .spawn()
+        .expect("spawn worker");
+    let stdin = child.stdin.take().unwrap();
+    let stdout = child.stdout.take().unwrap();
+    let (tx, rx) = std::sync::mpsc::channel();
+    std::thread::spawn(move || {
+        for line in std::io::BufReader::new(stdout).lines() {
+            match line {
+                Ok(l) => {
+                    if tx.send(l).is_err() {
+                        break;
+                    }
+                }
+                Err(_) => break,
+            }
+        }
+    });
+    Worker { child, stdin, rx, errfile }
+}
+fn crash_class(errfile: &str) -> (String, String) {
+    let txt = std::fs::read_to_string(errfile).unwrap_or_default();
+    let line = txt.lines().rev().find(|l| l.contains("memory allocation of") || l.contains("overflowed its stack") || l.contains("panicked") || l.contains("fatal runtime error")).or_else(|| txt.lines().rev().find(|l| !l.trim().is_empty())).unwrap_or("").to_string();
+    let class = if line.contains("memory allocation of") {
+        "alloc-failure".to_string()
+    } else if line.contains("overflowed its stack") {
+        "stack-overflow".to_string()
+    } else {
+        line.chars().filter(|c| !c.is_ascii_digit()).take(40).collect()
+    };
+    (class, line)
+}
+fn run_case_remote(sub: &Sub, tape: Vec<u8>, tier: Tier, strict: bool, index: u64, limit_s: u64) -> (Case, CaseResult) {
+    use std::io::Write;
+    let mut c = Case::new(Tape::new(tape.clone()), tier, strict);
+    c.index = index;
+    let res = WORKER.with(|w| {
+        let mut w = w.borrow_mut();
+        if w.is_none() {
+            *w = Some(spawn_worker(tier));
+        }
+        let wk = w.as_mut().unwrap();
+        let sent = writeln!(wk.stdin, "{}\t{}\t{}\t{}", sub.name, hex(&tape), strict, index).and_then(|_| wk.stdin.flush());
+        let reply = if sent.is_ok() { wk.rx.recv_timeout(std::time::Duration::from_secs(limit_s)) } else { Err(std::sync::mpsc::RecvTimeoutError::Disconnected) };
+        match reply {
+            Ok(line) => {
+                if line.contains("\"retire\":true") {
+                    let _ = wk.child.wait();
+                    let ef = wk.errfile.clone();
+                    *w = None;
+                    let _ = std::fs::remove_file(ef);
+                }
+                Ok(line)
+            }
+            Err(std::sync::mpsc::RecvTimeoutError::Timeout) => {
+                let _ = wk.child.kill();
+                let _ = wk.child.wait();
+                let ef = wk.errfile.clone();
+                *w = None;
+                let _ = std::fs::remove_file(ef);
+                Err(Fail::new("hang", format!("the case did not finish within {} s in its worker process (killed)", limit_s)))
+            }
+            Err(_) => {
+                let st = wk.child.wait().ok();
+                let (class, line) = crash_class(&wk.errfile);
+                let ef = wk.errfile.clone();
+                *w = None;
+                let _ = std::fs::remove_file(ef);
+                Err(Fail::new(format!("process-crash:{}", class), format!("the worker process died while running this case ({:?}): {}", st, line)))
+            }
+        }
+    });
+    match res {
+        Err(f) => (c, Err(f)),
+        Ok(line) => {
+            let v: Value = serde_json::from_str(&line).unwrap_or(Value::Null);
+            c.classes = v["classes"].as_array().map(|a| a.iter().filter_map(|x| x.as_str().map(|s| s.to_string())).collect()).unwrap_or_default();
+            c.excluded = v["excluded"].as_array().map(|a| a.iter().filter_map(|x| x.as_str().map(|s| s.to_string())).collect()).unwrap_or_default();
+            c.nontrivial = v["nontrivial"].as_bool().unwrap_or(false);
+            c.evals = v["evals"].as_u64().unwrap_or(0);
+            c.desc = v["desc"].clone();
+            c.tape.set_pos(v["consumed"].as_u64().unwrap_or(0) as usize);
+            if v["ok"].as_bool().unwrap_or(false) {
+                (c, Ok(()))
+            } else {
+                (c, Err(Fail::new(v["sig"].as_str().unwrap_or("?"), v["msg"].as_str().unwrap_or("?"))))
+            }
+        }
+    }
+}
+
 fn run_case(sub: &Sub, tape: Vec<u8>, tier: Tier, strict: bool, index: u64) -> (Case, CaseResult) {
+    if ISOLATE.load(Ordering::Relaxed) {
+        let limit: u64 = std::env::var("VERIF_HANG_LIMIT").ok().and_then(|s| s.parse().ok()).unwrap_or(60);
+        let (c, r) = run_case_remote(sub, tape.clone(), tier, strict, index, limit);
+        if matches!(&r, Err(f) if f.sig == "hang") {
+            // re-confirm alone with a three times longer limit before calling it a hang
+            let (c2, r2) = run_case_remote(sub, tape, tier, strict, index, limit * 3);
+            return (c2, r2);
+        }
+        return (c, r);
+    }
+    case_log(sub.name, &tape);
     watch_set(Some((Instant::now(), sub.name.to_string(), tape.clone())));
     let r = run_case_inner(sub, tape, tier, strict, index);
     watch_set(None);
@@ -420,7 +571,7 @@ impl Check {
         let h = fnv(&[f.sub.as_bytes(), &f.tape]);
         let path = format!("{}/{}-{:016x}.json", dir, f.sub, h);
         let v = json!({
-            "property": self.property, "sub": f.sub, "tape": hex(&f.tape),
+            "property": self.property, "sub": f.sub, "tape": hex(&f.tape), "strict": f.strict,
             "signature": f.fail.sig, "message": f.fail.msg, "case": f.desc,
         });
         let _ = std::fs::write(&path, serde_json::to_string_pretty(&v).unwrap());
@@ -436,7 +587,8 @@ impl Check {
         let Some(sub) = self.subs.iter().find(|s| s.name == subname) else {
             return Err(format!("{}: unknown sub-check {}", path, subname));
         };
-        let (_c, r) = run_case(sub, tape, tier, true, 0);
+        let strict = v["strict"].as_bool().unwrap_or(true);
+        let (_c, r) = run_case(sub, tape, tier, strict, 0);
         Ok(r.err())
     }
 
@@ -444,6 +596,57 @@ impl Check {
         let args = parse_args();
         let code = self.run_with(&args);
         std::process::exit(code)
+    }
+
+    /// Run the check in a worker subprocess (re-exec of the current binary) so that a crash of the code under test
+    /// (abort, stack overflow, allocation failure) is attributed to the case that caused it and reported as a violation
+    /// with a replay file instead of killing the check. The worker logs each case before running it.
+    pub fn run_isolated(self) -> ! {
+        let argv: Vec<String> = std::env::args().collect();
+        if argv.iter().any(|a| a == "--worker") {
+            self.worker_loop()
+        }
+        ISOLATE.store(true, Ordering::Relaxed);
+        self.run()
+    }
+
+    /// worker side of the isolation protocol: one request line per case on stdin, one JSON reply line on stdout
+    fn worker_loop(self) -> ! {
+        use std::io::{BufRead, Write};
+        install_panic_hook();
+        let args = parse_args();
+        let stdin = std::io::stdin();
+        let stdout = std::io::stdout();
+        for line in stdin.lock().lines() {
+            let Ok(line) = line else { break };
+            let parts: Vec<&str> = line.split('\t').collect();
+            if parts.len() < 4 {
+                continue;
+            }
+            let Some(sub) = self.subs.iter().find(|s| s.name == parts[0]) else {
+                let _ = writeln!(stdout.lock(), "{}", json!({"ok": false, "sig": "unknown-sub", "msg": parts[0]}));
+                continue;
+            };
+            let strict = parts[2] == "true";
+            let index: u64 = parts[3].parse().unwrap_or(0);
+            let (c, r) = run_case_inner(sub, unhex(parts[1]), args.tier, strict, index);
+            let v = match &r {
+                Ok(()) => json!({"ok": true, "classes": c.classes, "excluded": c.excluded, "nontrivial": c.nontrivial, "evals": c.evals, "desc": c.desc, "consumed": c.tape.pos()}),
+                Err(f) => json!({"ok": false, "sig": f.sig, "msg": f.msg, "classes": c.classes, "excluded": c.excluded, "nontrivial": c.nontrivial, "evals": c.evals, "desc": c.desc, "consumed": c.tape.pos()}),
+            };
+            let retire = RETIRE.load(Ordering::Relaxed);
+            let mut v = v;
+            if retire {
+                v["retire"] = json!(true);
+            }
+            let mut o = stdout.lock();
+            let _ = writeln!(o, "{}", v);
+            let _ = o.flush();
+            if retire {
+                std::process::exit(0);
+            }
+        }
+        std::process::exit(0)
     }
 
     pub fn run_with(self, args: &Args) -> i32 {
@@ -479,20 +682,20 @@ impl Check {
                 eprintln!("known finding {} names unknown sub-check {}", k.key, k.sub);
                 return 2;
             };
-            let (c, r) = run_case(sub, unhex(&k.tape), tier, true, 0);
+            let (c, r) = run_case(sub, unhex(&k.tape), tier, k.strict, 0);
             match (k.status.as_str(), r) {
                 ("open", Err(f)) if f.sig == k.signature => {
                     known_lines.push(format!("KNOWN-FINDING: property={} {} [{}]", self.property, k.what, k.key));
                 }
                 ("open", Err(f)) => {
-                    let path = self.write_replay(&Failure { sub: k.sub.clone(), tape: unhex(&k.tape), fail: f.clone(), desc: c.desc });
+                    let path = self.write_replay(&Failure { sub: k.sub.clone(), tape: unhex(&k.tape), fail: f.clone(), desc: c.desc, strict: k.strict });
                     violations.push((path, format!("repro of open finding {} now fails differently [{}]: {}", k.key, f.sig, f.msg)));
                 }
                 ("open", Ok(())) => {
                     println!("note: open finding {} no longer reproduces", k.key);
                 }
                 (_, Err(f)) => {
-                    let path = self.write_replay(&Failure { sub: k.sub.clone(), tape: unhex(&k.tape), fail: f.clone(), desc: c.desc });
+                    let path = self.write_replay(&Failure { sub: k.sub.clone(), tape: unhex(&k.tape), fail: f.clone(), desc: c.desc, strict: k.strict });
                     violations.push((path, format!("fixed finding {} is back [{}]: {}", k.key, f.sig, f.msg)));
                 }
                 (_, Ok(())) => {}
@@ -670,7 +873,7 @@ impl Check {
                                 Err(f) => {
                                     let mut g = first_fail.lock().unwrap();
                                     if g.as_ref().map(|x| i < x.0 as u64).unwrap_or(true) {
-                                        *g = Some((i as usize, Failure { sub: sub.name.to_string(), tape, fail: f, desc: c.desc }));
+                                        *g = Some((i as usize, Failure { sub: sub.name.to_string(), tape, fail: f, desc: c.desc, strict: false }));
                                     }
                                     stop.store(true, Ordering::Relaxed);
                                     break;
@@ -746,7 +949,7 @@ impl Check {
                         let fail = r.err().unwrap_or_else(|| Fail::new("flaky", "shrunk case passed when re-run (non-deterministic oracle)"));
                         let mut g = first_fail.lock().unwrap();
                         if g.as_ref().map(|x| sh < x.0).unwrap_or(true) {
-                            *g = Some((sh, Failure { sub: sub.name.to_string(), tape, fail, desc: c.desc }));
+                            *g = Some((sh, Failure { sub: sub.name.to_string(), tape, fail, desc: c.desc, strict: false }));
                         }
                     } else if let Err(TestError::Abort(r)) = res {
                         eprintln!("proptest aborted: {}", r);
